@@ -134,10 +134,12 @@ def _is_std_stream(v):
 
 def obligations(src_root, contracts):
     out = []
+    allow_notes = [f"write-site allow-list: {k[0]} {k[1]} - {v}" for k, v in ALLOW.items()]
     for s in scan(src_root, contracts):
         out.append({"id": f"F/write-site {s['file']}:{s['line']} [{s['primitive']} in {s['function']}]", "func": s["function"], "kind": "frame-site",
                     "label": None, "status": s["status"], "backend": "syntactic frame scan (ast)", "secs": 0.0, "reason": s["why"] if s["status"] != "discharged" else "",
-                    "model": None, "path_notes": [s["why"]], "goal_size": 0, "replay": None, "clause": "every write primitive is under an effect contract or on the allow-list"})
+                    "model": None, "path_notes": [s["why"]], "goal_size": 0, "replay": None, "clause": "every write primitive is under an effect contract or on the allow-list",
+                    "assumptions": allow_notes})
     return out
 
 
